@@ -64,13 +64,24 @@ func writeMaterialTexture(texType string, tex *string, writer *txt.Writer) error
 	return nil
 }
 
+// materialName is the name a material goes by in the OBJ and the MTL file.
+// Both formats separate the items of a line by blanks, so the name has to be
+// one non-empty token.
+func materialName(name string) string {
+	name = strings.Join(strings.Fields(name), "")
+	if name == "" {
+		return "Unnamed"
+	}
+	return name
+}
+
 func WriteMaterial(mat modeling.Material, out io.Writer) (err error) {
 
 	writer := txt.NewWriter(out)
 
 	writer.StartEntry()
 	writer.String("newmtl ")
-	writer.String(strings.Replace(mat.Name, " ", "", -1))
+	writer.String(materialName(mat.Name))
 	writer.NewLine()
 	if _, err = writer.FinishEntry(); err != nil {
 		return fmt.Errorf("failed to write newmtl: %w", err)
@@ -167,7 +178,7 @@ func writeUsingMaterial(mat *modeling.Material, out *txt.Writer) {
 	} else {
 		out.StartEntry()
 		out.String("usemtl ")
-		out.String(strings.Replace(mat.Name, " ", "", -1))
+		out.String(materialName(mat.Name))
 		out.NewLine()
 		out.FinishEntry()
 	}
